@@ -460,7 +460,9 @@ class RefRun(object):
                 tag = self.tag_of(t)
                 n = o.item_attempts.get(idx, 0)
                 o.item_attempts[idx] = n + 1
-                oc = self.outcome_fn(tag, idx, n)
+                shift = ((self.opts or {}).get('shift') or {}).get(
+                    '%s/%s' % (self.wf['name'], t['name']), 0)
+                oc = self.outcome_fn(tag, idx, n + shift)
                 nex += 1
                 if oc[0] == 'ok':
                     states_.append('SUCCESS')
@@ -629,6 +631,18 @@ class RefRun(object):
             if remain and not brk and not stop:
                 o.accepted = []
                 return True
+        skip = ((self.opts or {}).get('skip') or ())
+        if st == 'ERROR' and '%s/%s' % (self.wf['name'], t['name']) in skip:
+            # operator skipped the failed task
+            st = 'SKIPPED'
+            try:
+                o.published = dict(
+                    (k, self.ev(e, o, None, res))
+                    for k, e in sorted((t.get('publish_on_skip') or {})
+                                       .items())) or o.published
+            except EvalError:
+                self.structural_error(o, keep_exec=True)
+                return 'structural'
         self.complete_task(o, st, res)
         return False
 
@@ -704,7 +718,13 @@ class RefRun(object):
                 for en in self.clause(name, 'on_error'):
                     if self.guard(en, o, extra, res):
                         cmds.append((en, 'on-error'))
-            if st == 'SUCCESS':
+            skip_empty = False
+            if st == 'SKIPPED':
+                for en in self.clause(name, 'on_skip'):
+                    if self.guard(en, o, extra, res):
+                        cmds.append((en, 'on-skip'))
+                skip_empty = not cmds
+            if st == 'SUCCESS' or skip_empty:
                 for en in self.clause(name, 'on_success'):
                     if self.guard(en, o, extra, res):
                         cmds.append((en, 'on-success'))
